@@ -82,6 +82,9 @@ namespace bluetoe {
 
     namespace details {
 
+        template < typename ... Options >
+        struct count_service_attributes;
+
         static constexpr std::uint16_t invalid_attribute_handle = 0;
         static constexpr std::size_t   invalid_attribute_index  = ~0;
 
@@ -239,9 +242,11 @@ namespace bluetoe {
             static constexpr std::uint16_t value = start_handle_t::attribute_handle_value;
         };
 
+        // the characteristics of a service start behind the service declaration and all include declarations
         template < std::uint16_t StartHandle, std::uint16_t StartIndex, typename ... Options >
         using next_char_mapping = interate_characteristic_index_mappings<
-                service_start_handle< StartHandle, StartIndex, Options... >::value + 1, StartIndex + 1,
+                service_start_handle< StartHandle, StartIndex, Options... >::value + count_service_attributes< Options... >::number_of_attributes,
+                StartIndex + count_service_attributes< Options... >::number_of_attributes,
                 typename find_all_by_meta_type< characteristic_meta_type, Options... >::type >;
 
         /*
@@ -260,10 +265,13 @@ namespace bluetoe {
             static constexpr std::uint16_t end_handle   = next_char_mapping< StartHandle, StartIndex, Options... >::last_characteristic_end_handle;
             static constexpr std::uint16_t end_index    = StartIndex + service_t::number_of_attributes;
 
+            static constexpr std::size_t number_of_service_attributes = count_service_attributes< Options... >::number_of_attributes;
+
             static std::uint16_t characteristic_handle_by_index( std::size_t index )
             {
-                if ( index == StartIndex )
-                    return service_handle;
+                // service declaration and include declarations
+                if ( index < StartIndex + number_of_service_attributes )
+                    return service_handle + ( index - StartIndex );
 
                 return next_char_mapping< StartHandle, StartIndex, Options... >::attribute_handle_by_index( index );
             }
@@ -272,6 +280,9 @@ namespace bluetoe {
             {
                 if ( handle <= service_handle )
                     return StartIndex;
+
+                if ( handle < service_handle + number_of_service_attributes )
+                    return StartIndex + ( handle - service_handle );
 
                 return next_char_mapping< StartHandle, StartIndex, Options... >::attribute_index_by_handle( handle );
             }
